@@ -6,6 +6,8 @@ import (
 	"os"
 
 	"verif/harness/codec"
+	"verif/harness/datebounds"
+	"verif/harness/datecompare"
 	"verif/harness/dates"
 )
 
@@ -18,6 +20,10 @@ func main() {
 	switch os.Args[1] {
 	case "codec":
 		err = codec.Main(os.Args[2:])
+	case "datebounds":
+		err = datebounds.Main(os.Args[2:])
+	case "datecompare":
+		err = datecompare.Main(os.Args[2:])
 	case "dates":
 		err = dates.Main(os.Args[2:])
 	default:
